@@ -437,6 +437,105 @@ theorem returns_only_on_success (a : DatasetArgs) (q : QueryFacts) (fs : FsFacts
         | false => simp [deliver, hres, hx] at hd
       exact ⟨⟨hv, hs, ht⟩, hend, hres, hout, (hok p rfl).1, by rw [h1]; simp⟩
 
+/-! ## `plan`, `finish`, and the stream -/
+
+/-- **C17.result_is_plan_then_finish** — DESIGN's decomposition: the caller's result is `plan`'s
+error when planning fails (constructor validation, translation, same-directory check), and
+otherwise `finish` applied to the container's outcome (stream, then result extraction). -/
+theorem result_is_plan_then_finish (a : DatasetArgs) (q : QueryFacts) (fs : FsFacts) (o : Outcome) :
+    (execute a q fs o).2 = match plan a q fs with
+      | .error e => .error e
+      | .ok _ => finish (mkDataset a fs) fs o := by
+  unfold plan execute
+  cases hc : construct a fs with
+  | error e => rfl
+  | ok ds =>
+    obtain ⟨_, rfl⟩ := construct_ok_valid a fs ds hc
+    simp only
+    cases hp : prepare (mkDataset a fs) q with
+    | mk evs r =>
+      cases r with
+      | error e => rw [body_of_prepare_error _ q fs o evs e hp]
+      | ok c =>
+        unfold body finish
+        simp only [hp]
+        cases hr : runContainer o with
+        | mk n res =>
+          cases res with
+          | error e => rfl
+          | ok u =>
+            cases u
+            cases hd : deliver (mkDataset a fs) fs o <;> rfl
+
+theorem runContainer_fst (o : Outcome) (hd : AllDecode o) :
+    (runContainer o).1 = if o.atCall = true ∧ o.ending ≠ .success then 0 else o.chunks.length := by
+  unfold runContainer
+  have hc := consume_all o.chunks hd
+  cases he : o.ending <;> cases ha : o.atCall <;> simp [endingErr, hc]
+
+/-- **C17.pulled_count** — with decodable output the whole stream is read before anything else
+happens: all `k` chunks when the container fails after chunk `k` (or succeeds), none when
+`docker.run` itself raises. -/
+theorem pulled_count (a : DatasetArgs) (q : QueryFacts) (fs : FsFacts) (o : Outcome) (hd : AllDecode o)
+    (hcall : (observe a (execute a q fs o)).calls ≠ []) :
+    (observe a (execute a q fs o)).pulled =
+      if o.atCall = true ∧ o.ending ≠ .success then 0 else o.chunks.length := by
+  have h := execute_shape a q fs o
+  generalize execute a q fs o = r at h hcall
+  cases h with
+  | refused e hv hc => simp [observe, callsOf] at hcall
+  | untranslatable hv ht => simp [observe, callsOf] at hcall
+  | differentDirs hv ht hs ls => simp [observe, callsOf] at hcall
+  | ran hv ht hs u us hp tl r htl =>
+    obtain ⟨_, _, _, _, _, _, h7, _⟩ := observe_ran a (mkCall (mkDataset a fs) q u.parent) tl r htl
+    rw [h7, ← runContainer_fst o hd]
+    cases htl with
+    | streamFailed n e h => simp [pulledOf, h]
+    | deliverFailed n e h hd' => simp [pulledOf, h]
+    | delivered n p h hd' => simp [pulledOf, h]
+
+theorem consume_not_all (cs : List Chunk) (h : ¬ ∀ c ∈ cs, c.decodes = true) : (consume cs).2 = false := by
+  cases hc : consume cs with
+  | mk n ok =>
+    cases ok with
+    | false => rfl
+    | true => exact absurd (consume_ok cs n hc).1 h
+
+/-- **C17.undecodable_raises** — the defect exclusion is exact: whenever a container was started,
+its output has a chunk that is not UTF-8, and `docker.run` did not itself raise, the caller gets
+`UnicodeDecodeError` — whatever else the container did (so on this class `success_returns` fails
+for *every* otherwise successful run, not only for the listed literal). -/
+theorem undecodable_raises (a : DatasetArgs) (q : QueryFacts) (fs : FsFacts) (o : Outcome)
+    (hnd : ¬ AllDecode o) (hnc : ¬ (o.atCall = true ∧ o.ending ≠ .success))
+    (hcall : (observe a (execute a q fs o)).calls ≠ []) :
+    (observe a (execute a q fs o)).err = some "UnicodeDecodeError" := by
+  have hrc : ∃ n, runContainer o = (n, .error .decode) := by
+    unfold runContainer
+    have h2 := consume_not_all o.chunks hnd
+    cases hc : consume o.chunks with
+    | mk n ok =>
+      rw [hc] at h2
+      simp only at h2
+      subst h2
+      cases he : o.ending <;> cases ha : o.atCall <;> simp_all [endingErr]
+  obtain ⟨n0, hrc⟩ := hrc
+  have h := execute_shape a q fs o
+  generalize execute a q fs o = r at h hcall
+  cases h with
+  | refused e hv hc => simp [observe, callsOf] at hcall
+  | untranslatable hv ht => simp [observe, callsOf] at hcall
+  | differentDirs hv ht hs ls => simp [observe, callsOf] at hcall
+  | ran hv ht hs u us hp tl r htl =>
+    obtain ⟨_, _, _, _, _, _, _, _, herr⟩ := observe_ran a (mkCall (mkDataset a fs) q u.parent) tl r htl
+    cases htl with
+    | streamFailed n e h =>
+      rw [hrc] at h
+      simp only [Prod.mk.injEq, Except.error.injEq] at h
+      obtain ⟨_, rfl⟩ := h
+      exact (herr _ rfl).1
+    | deliverFailed n e h hd' => rw [hrc] at h; simp at h
+    | delivered n p h hd' => rw [hrc] at h; simp at h
+
 /-! ## the temporary directory and the order of the steps -/
 
 /-- **C17.tempdir_released** — after every execution (refused, untranslatable, different
